@@ -1,6 +1,14 @@
 import HawkModel.Drv.Arr
+import HawkModel.Drv.Xma
+import HawkModel.Drv.Rbt
+import HawkModel.Drv.Htb
+import HawkModel.Drv.Rio
 
 def main (args : List String) : IO UInt32 := do
   match args with
   | "arr" :: _ => Hawk.Drv.Arr.main; return 0
+  | "xma" :: _ => Hawk.Drv.Xma.main; return 0
+  | "rbt" :: _ => Hawk.Drv.Rbt.main; return 0
+  | "htb" :: _ => Hawk.Drv.Htb.main; return 0
+  | "rio" :: _ => Hawk.Drv.Rio.main; return 0
   | _ => IO.eprintln "usage: hawkdrv <area>"; return 2
